@@ -687,8 +687,8 @@ uint64_t Model::fingerprint() const {
 
 std::string Model::image_key() const {
 	std::string k;
-	for (auto &pp : peers) { const Peer &p = pp.second; if (!p.alive) continue; k += "P" + std::to_string(p.c) + (p.authed ? "a" + p.user : "") + ";"; }
-	for (auto &kv : elems) { const Elem &e = kv.second; k += "E" + json_escape(e.path) + "#" + std::to_string(e.owner) + (e.is_state ? "s" + e.value.dump() : "m") + (e.fetch_only ? "f" : "") + ";"; }
+	for (auto &pp : peers) { const Peer &p = pp.second; if (!p.alive) continue; k += "P" + std::to_string(p.c) + (p.authed ? "a" + p.user : "") + ";"; for (auto &f : p.fetches) k += "F" + f.id.dump() + ";"; }   // (a peer that holds a fetch cannot authenticate again)
+	for (auto &kv : elems) { const Elem &e = kv.second; k += "E" + json_escape(e.path) + "#" + std::to_string(e.owner) + (e.is_state ? "s" + e.value.dump() : "m") + (e.fetch_only ? "f" : "") + ";"; for (auto &g : e.fg) k += "g" + g + ";"; }
 	for (auto &u : users) k += "U" + u.first + "=" + u.second.password + ";";
 	return k;
 }
